@@ -151,6 +151,37 @@ def h_values(shape):
             wf = BlackmanWaveform(d, area)
             expect = None
             params = lambda w: [facade._unwrap0(w._area)]  # noqa: E731
+        elif cls == "interp":
+            # concrete data (scipy interpolation does not run on proxies): derived copies are built from the same points
+            from pulser.waveforms import InterpolatedWaveform
+
+            kw = dict(shape["kw"])
+            wf = InterpolatedWaveform(d, list(shape["values"]), **kw)
+            s0 = [float(x) for x in wf.samples.as_array(detach=True)]
+            obs.append(("k2:n_samples", len(s0) == d))
+            for kk in (2.0, -0.5):
+                sk = [float(x) for x in (wf * kk).samples.as_array(detach=True)]
+                obs.append(("k2:mul_scales", len(sk) == d and all(abs(x - kk * y) <= 1e-6 * (1 + abs(y)) for x, y in zip(sk, s0))))
+            sn = [float(x) for x in (-wf).samples.as_array(detach=True)]
+            obs.append(("k2:neg", all(abs(x + y) <= 1e-6 * (1 + abs(y)) for x, y in zip(sn, s0))))
+            w2 = wf.change_duration(2 * d - 1)  # every other sample of the longer copy falls on a sample time of the original
+            s2 = [float(x) for x in w2.samples.as_array(detach=True)]
+            obs.append(("k2:change_duration", len(s2) == 2 * d - 1 and abs(s2[0] - s0[0]) <= 1e-6 and abs(s2[-1] - s0[-1]) <= 1e-6
+                        and type(w2) is type(wf)))
+            import pulser.json.coders as co
+            import json as _json
+
+            w3 = _json.loads(_json.dumps(wf, cls=co.PulserEncoder), cls=co.PulserDecoder)
+            s3 = [float(x) for x in w3.samples.as_array(detach=True)]
+            obs.append(("k2:interp_copy_same_samples", all(abs(x - y) <= 1e-9 for x, y in zip(s3, s0))))
+            return obs
+        elif cls == "kaiser":
+            from pulser.waveforms import KaiserWaveform
+
+            area = inp.real("area")
+            wf = KaiserWaveform(d, area, shape["beta"])
+            expect = None
+            params = lambda w: [facade._unwrap0(w._area), float(w._beta), type(w).__name__]  # noqa: E731
         s = samples_of(wf)
         n_expected = len(expect) if expect is not None else d
         obs.append(("k2:n_samples", len(s) == n_expected and wf.duration == n_expected))
@@ -353,6 +384,12 @@ def kernels(tier):
             if cls == "custom" and d > 5:
                 continue
             ks.append(("values", dict(cls=cls, dur=d, div=(d <= 4), eq=(d <= 3))))
+    for d in ((5, 12) if quick else (3, 5, 8, 12, 20)):
+        for beta in (3.0, 14.0):
+            ks.append(("values", dict(cls="kaiser", dur=d, beta=beta, div=False, eq=False)))
+    for values, kw in (([0.0, 2.0, 1.0], dict(times=[0.0, 1.0, 0.5], interpolator="interp1d")), ([0.0, 2.0, 1.0], dict()),
+                       ([1.0, 3.0, 0.5, 2.0], dict(times=[0.0, 0.2, 0.7, 1.0])), ([1.0, 3.0, 0.5, 2.0], dict(interpolator="interp1d", kind="quadratic"))):
+        ks.append(("values", dict(cls="interp", dur=21, values=values, kw=kw)))
     ks.append(("pulse", dict(what="init")))
     for kind in ("custom", "ramp", "const"):
         for n in range(2, 5 if quick else 7):
